@@ -5,6 +5,7 @@ Lemmas for the C17 "post part" theorems (Props/C17Post.lean): Pascal-string read
 -/
 import FontVerif.Model.SubsetPost
 import FontVerif.Lemmas.Subset
+import FontVerif.Lemmas.Layout
 set_option linter.unusedVariables false
 namespace FontVerif.SubsetPost
 open FontVerif FontVerif.Subset FontVerif.SubsetMeta
@@ -908,5 +909,245 @@ theorem flatMap_const_length {α : Type} (l : List α) (f : α → Bytes) (k : N
   induction l with
   | nil => simp
   | cons x rest ih => rw [List.flatMap_cons, List.length_append, ih, h, List.length_cons]; rw [Nat.mul_succ]; omega
+
+
+/-! ## VORG -/
+
+/-- `vertical_origin_y` as a plain lookup -/
+def vorgLookup (recs : List (Nat × Nat)) (gid dflt : Nat) : Nat :=
+  match recs.find? (fun r => r.1 == gid) with
+  | some r => r.2
+  | none => dflt
+
+theorem find_key_of_getElem? : ∀ (recs : List (Nat × Nat)) (i : Nat) (r : Nat × Nat),
+    (recs.map (·.1)).Pairwise (· ≠ ·) → recs[i]? = some r → recs.find? (fun x => x.1 == r.1) = some r := by
+  intro recs
+  induction recs with
+  | nil => intro i r _ h; simp at h
+  | cons x rest ih =>
+    intro i r hd h
+    simp only [List.map_cons, List.pairwise_cons] at hd
+    cases i with
+    | zero => simp only [List.getElem?_cons_zero, Option.some.injEq] at h; subst h; simp
+    | succ i =>
+      simp only [List.getElem?_cons_succ] at h
+      have hne : x.1 ≠ r.1 := hd.1 r.1 (List.mem_map_of_mem (List.mem_of_getElem? h))
+      simp only [List.find?_cons, beq_iff_eq, hne, if_false]
+      have : (x.1 == r.1) = false := by simp [hne]
+      simp only [this]
+      exact ih i r hd.2 h
+
+/-- read-fonts' binary search on records sorted by glyph index is the plain lookup -/
+theorem vorgSearch_sorted (recs : List (Nat × Nat)) (hs : (recs.map (·.1)).Pairwise (· < ·)) (gid dflt : Nat) :
+    (match Layout.binarySearchBy recs.length (fun i => Layout.natCmp (recs.getD i (0, 0)).1 gid) with
+     | .ok ix => (match recs[ix]? with | some r => r.2 | none => 0)
+     | .err _ => dflt) = vorgLookup recs gid dflt := by
+  have hkey : ∀ i, i < recs.length → (recs.getD i (0, 0)).1 = (recs.map (·.1)).getD i 0 := by
+    intro i hi
+    simp [List.getD_eq_getElem?_getD, List.getElem?_eq_getElem hi]
+  have hm : Layout.Mono recs.length (fun i => Layout.natCmp (recs.getD i (0, 0)).1 gid) := by
+    intro i j hij hj
+    simp only [hkey i (by omega), hkey j hj]
+    apply Layout.rank_natCmp_mono
+    exact Layout.pairwise_lt_getElem?_le hs hij (Layout.getElem?_of_lt_getD 0 (by simp; omega))
+      (Layout.getElem?_of_lt_getD 0 (by simp; omega))
+  have hne : (recs.map (·.1)).Pairwise (· ≠ ·) := hs.imp (fun h => by omega)
+  unfold vorgLookup
+  cases hr : Layout.binarySearchBy recs.length (fun i => Layout.natCmp (recs.getD i (0, 0)).1 gid) with
+  | ok i =>
+    obtain ⟨hi, he⟩ := Layout.bs_ok hm hr
+    have he' := Layout.natCmp_eq.mp he
+    have hget : recs[i]? = some (recs.getD i (0, 0)) := Layout.getElem?_of_lt_getD _ hi
+    have := find_key_of_getElem? recs i _ hne hget
+    rw [he'] at this
+    simp only [hget, this]
+  | err i =>
+    have hno := Layout.bs_err_no_eq hm hr
+    have : recs.find? (fun r => r.1 == gid) = none := by
+      rw [List.find?_eq_none]
+      intro r hr' e
+      obtain ⟨k, hk⟩ := List.getElem?_of_mem hr'
+      have hkl : k < recs.length := (List.getElem?_eq_some_iff.mp hk).1
+      apply hno k hkl
+      simp only [Layout.getD_of_getElem? hk]
+      exact Layout.natCmp_eq.mpr (by simpa using e)
+    simp only [this]
+
+/-- the plan's renumbering is strictly monotone (C17 `glyph_map_monotone_bijection`) -/
+def PlanMono (n2o : List (Nat × Nat)) : Prop := n2o.Pairwise (fun a b => a.1 < b.1 ∧ a.2 < b.2)
+
+theorem planMono_ok {n2o : List (Nat × Nat)} {nout : Nat} (h : PlanMono n2o) (hb : ∀ no ∈ n2o, no.1 < nout) :
+    PlanOk n2o nout := by
+  refine ⟨?_, ?_, hb⟩
+  · rw [List.pairwise_map]; exact h.imp (fun h => by omega)
+  · rw [List.pairwise_map]; exact h.imp (fun h => by omega)
+
+theorem pairwise_mem_cases {α : Type} {R : α → α → Prop} : ∀ {l : List α}, l.Pairwise R → ∀ a ∈ l, ∀ b ∈ l,
+    a = b ∨ R a b ∨ R b a := by
+  intro l
+  induction l with
+  | nil => intro _ a ha; simp at ha
+  | cons x rest ih =>
+    intro hp a ha b hb
+    simp only [List.pairwise_cons] at hp
+    simp only [List.mem_cons] at ha hb
+    rcases ha with rfl | ha <;> rcases hb with rfl | hb
+    · exact Or.inl rfl
+    · exact Or.inr (Or.inl (hp.1 b hb))
+    · exact Or.inr (Or.inr (hp.1 a ha))
+    · exact ih hp.2 a ha b hb
+
+theorem gmap_mono {n2o : List (Nat × Nat)} {nout : Nat} (h : PlanMono n2o) (hb : ∀ no ∈ n2o, no.1 < nout)
+    {a b x y : Nat} (ha : oldToNew n2o a = some x) (hbb : oldToNew n2o b = some y) (hlt : a < b) : x < y := by
+  have hok := planMono_ok h hb
+  have m1 := (oldToNew_iff hok a x).mp ha
+  have m2 := (oldToNew_iff hok b y).mp hbb
+  rcases pairwise_mem_cases h _ m1 _ m2 with e | e | e
+  · simp only [Prod.mk.injEq] at e; omega
+  · exact e.1
+  · simp only at e; omega
+
+/-- the kept records stay sorted by (new) glyph index -/
+theorem vorgKept_sorted {n2o : List (Nat × Nat)} {nout : Nat} (h : PlanMono n2o) (hb : ∀ no ∈ n2o, no.1 < nout)
+    (hn : nout ≤ 65536) (recs : List (Nat × Nat)) (hs : (recs.map (·.1)).Pairwise (· < ·)) :
+    ((vorgKept (oldToNew n2o) recs).map (·.1)).Pairwise (· < ·) := by
+  have hok := planMono_ok h hb
+  rw [List.pairwise_map] at hs ⊢
+  unfold vorgKept
+  refine List.Pairwise.filterMap _ ?_ hs
+  intro a a' hlt b hb' b' hb''
+  cases hg1 : oldToNew n2o a.1 with
+  | none => simp [hg1] at hb'
+  | some n1 =>
+    cases hg2 : oldToNew n2o a'.1 with
+    | none => simp [hg2] at hb''
+    | some n2 =>
+      simp only [hg1, Option.some.injEq] at hb'
+      simp only [hg2, Option.some.injEq] at hb''
+      subst hb'; subst hb''
+      simp only
+      have := gmap_mono h hb hg1 hg2 hlt
+      have b1 := hb _ ((oldToNew_iff hok _ _).mp hg1)
+      have b2 := hb _ ((oldToNew_iff hok _ _).mp hg2)
+      simp only at b1 b2
+      rw [Nat.mod_eq_of_lt (by omega), Nat.mod_eq_of_lt (by omega)]
+      exact this
+
+/-- the kept records answer for a new id what the source records answer for its old id (no sortedness needed) -/
+theorem vorgKept_find {n2o : List (Nat × Nat)} {nout : Nat} (hok : PlanOk n2o nout) (hn : nout ≤ 65536)
+    (new old : Nat) (hg : oldToNew n2o old = some new) : ∀ (recs : List (Nat × Nat)),
+    (vorgKept (oldToNew n2o) recs).find? (fun r => r.1 == new) =
+      (recs.find? (fun r => r.1 == old)).map (fun r => (new, r.2)) := by
+  intro recs
+  induction recs with
+  | nil => rfl
+  | cons r rest ih =>
+    unfold vorgKept at ih ⊢
+    rw [List.filterMap_cons]
+    cases hr : oldToNew n2o r.1 with
+    | none =>
+      simp only
+      have : (r.1 == old) = false := by
+        simp only [beq_eq_false_iff_ne]; intro e; rw [e, hg] at hr; cases hr
+      rw [List.find?_cons, this]
+      exact ih
+    | some n =>
+      simp only
+      have bn := hok.bound _ ((oldToNew_iff hok _ _).mp hr)
+      simp only at bn
+      have hmod : n % 65536 = n := Nat.mod_eq_of_lt (by omega)
+      rw [List.find?_cons, List.find?_cons, hmod]
+      by_cases e : r.1 = old
+      · have : n = new := by rw [e, hg] at hr; cases hr; rfl
+        subst this; subst e
+        simp
+      · have hne : n ≠ new := by
+          intro e2; subst e2; exact e (gmap_inj hok hr hg)
+        have h1 : (n == new) = false := by simp [hne]
+        have h2 : (r.1 == old) = false := by simp [e]
+        simp only [h1, h2]
+        exact ih
+
+theorem vorgLookup_kept {n2o : List (Nat × Nat)} {nout : Nat} (hok : PlanOk n2o nout) (hn : nout ≤ 65536)
+    (new old dflt : Nat) (hg : oldToNew n2o old = some new) (recs : List (Nat × Nat)) :
+    vorgLookup (vorgKept (oldToNew n2o) recs) new dflt = vorgLookup recs old dflt := by
+  unfold vorgLookup
+  rw [vorgKept_find hok hn new old hg recs]
+  cases recs.find? (fun r => r.1 == old) <;> rfl
+
+
+theorem u16At_lt (t : Bytes) (hb : ∀ b ∈ t, b < 256) (i : Nat) : u16At t i < 65536 := by
+  have hget : ∀ i, t.getD i 0 < 256 := by
+    intro i
+    rw [List.getD_eq_getElem?_getD]
+    cases h : t[i]? with
+    | none => simp
+    | some b => simp; exact hb b (List.mem_of_getElem? h)
+  have h0 := hget i; have h1 := hget (i + 1)
+  simp only [u16At]; omega
+
+def enc4 (r : Nat × Nat) : Bytes := be16 r.1 ++ be16 r.2
+
+theorem u16At_flatMap_enc4 : ∀ (recs : List (Nat × Nat)) (k : Nat), k < recs.length →
+    (∀ r ∈ recs, r.1 < 65536 ∧ r.2 < 65536) →
+    u16At (recs.flatMap enc4) (4 * k) = (recs.getD k (0, 0)).1 ∧
+    u16At (recs.flatMap enc4) (4 * k + 2) = (recs.getD k (0, 0)).2 := by
+  intro recs
+  induction recs with
+  | nil => intro k h; simp at h
+  | cons r rest ih =>
+    intro k h hv
+    have hr := hv r (by simp)
+    rw [List.flatMap_cons]
+    simp only [enc4, be16_eq, List.cons_append, List.nil_append]
+    cases k with
+    | zero =>
+      simp only [u16At, Nat.mul_zero, Nat.zero_add, List.getD_cons_zero, List.getD_cons_succ]
+      omega
+    | succ k =>
+      simp only [List.length_cons] at h
+      obtain ⟨i1, i2⟩ := ih k (by omega) (fun x hx => hv x (List.mem_cons_of_mem _ hx))
+      simp only [List.getD_cons_succ]
+      constructor
+      · have e1 : 4 * (k + 1) = (4 * k + 2) + 2 := by omega
+        rw [e1, u16At_cons2, u16At_cons2]; exact i1
+      · have e2 : 4 * (k + 1) + 2 = ((4 * k + 2) + 2) + 2 := by omega
+        rw [e2, u16At_cons2, u16At_cons2]; exact i2
+
+theorem vorgOut_reader (hdr : Bytes) (kept : List (Nat × Nat)) (hh : hdr.length = 6) (hc : kept.length < 65536)
+    (hv : ∀ r ∈ kept, r.1 < 65536 ∧ r.2 < 65536) :
+    vorgReadable (hdr ++ be16 (kept.length % 65536) ++ kept.flatMap enc4) = true ∧
+    vorgRecords (hdr ++ be16 (kept.length % 65536) ++ kept.flatMap enc4) = kept ∧
+    u16At (hdr ++ be16 (kept.length % 65536) ++ kept.flatMap enc4) 4 = u16At hdr 4 := by
+  have hmod : kept.length % 65536 = kept.length := Nat.mod_eq_of_lt hc
+  have hpre : (hdr ++ be16 (kept.length % 65536)).length = 8 := by simp [hh, be16_eq]
+  have hlen : (hdr ++ be16 (kept.length % 65536) ++ kept.flatMap enc4).length = 8 + 4 * kept.length := by
+    rw [List.length_append, hpre, flatMap_const_length _ _ 4 (fun _ => rfl)]
+  have hcnt : u16At (hdr ++ be16 (kept.length % 65536) ++ kept.flatMap enc4) 6 = kept.length := by
+    rw [List.append_assoc]
+    have := u16At_append_right hdr (be16 (kept.length % 65536) ++ kept.flatMap enc4) 0
+    rw [hh] at this
+    rw [this, hmod, be16_eq]
+    simp only [u16At, List.cons_append, List.getD_cons_zero, List.getD_cons_succ, Nat.zero_add]
+    omega
+  refine ⟨?_, ?_, ?_⟩
+  · unfold vorgReadable
+    rw [hcnt, hlen]; simp
+  · unfold vorgRecords
+    rw [hcnt]
+    apply List.ext_getElem?
+    intro k
+    by_cases hk : k < kept.length
+    · rw [List.getElem?_map, List.getElem?_range hk]
+      simp only [Option.map_some]
+      have a := u16At_append_right (hdr ++ be16 (kept.length % 65536)) (kept.flatMap enc4) (4 * k)
+      have b := u16At_append_right (hdr ++ be16 (kept.length % 65536)) (kept.flatMap enc4) (4 * k + 2)
+      rw [hpre] at a b
+      have e2 : 10 + 4 * k = 8 + (4 * k + 2) := by omega
+      obtain ⟨i1, i2⟩ := u16At_flatMap_enc4 kept k hk hv
+      rw [e2, a, b, i1, i2, List.getElem?_eq_getElem hk]
+      simp [List.getD_eq_getElem?_getD, List.getElem?_eq_getElem hk]
+    · rw [List.getElem?_eq_none (by simp; omega), List.getElem?_eq_none (by omega)]
+  · rw [List.append_assoc, u16At_append_left _ _ _ (by omega)]
 
 end FontVerif.SubsetPost
